@@ -65,6 +65,7 @@ Lemma handle_packet_sz_big c k p n s : too_big k n s = true -> sz_refused c k s 
 Proof.
   unfold handle_packet_sz. intros ->. destruct p; try apply szr_plain.
   - destruct (has_wild topic); [apply szr_read|].
+    match goal with |- context [if ?b then HErrRead s (Some 148) else _] => destruct b end; [apply szr_read|].
     match goal with |- context [if ?b then HErrRead s (Some 130) else _] => destruct b end; [apply szr_read|].
     destruct ((0 <? qos) && (k_quota k =? 0)); [apply szr_read|]. cbv zeta.
     destruct (0 <? qos); [apply szr_quota|].
